@@ -329,3 +329,46 @@ def run_at_boundary(runs, boundary_line):
 def repo_tree_id():
     p = subprocess.run("git -C /repo rev-parse HEAD; git -C /repo diff | sha1sum", shell=True, stdout=subprocess.PIPE, text=True)
     return p.stdout.strip().replace("\n", " ")
+
+
+def generic_replay(ctx, path):
+    """./check <ID> --replay <file>: re-run the saved schedule/behaviour on the CURRENT code when the replay file carries one,
+    otherwise re-validate the recorded execution; exit 1 with a VIOLATION line if the property's monitors still fail."""
+    obj = json.load(open(path))
+    prop = ctx.prop
+    src = obj.get("source") or {}
+    hs = None
+    tpath = None
+    if src.get("kind") == "local replay" and src.get("behaviour"):
+        hs = build_harness(ctx)
+        b = ctx.path("replay-beh.ndjson")
+        open(b, "w").write(json.dumps(src["behaviour"]) + "\n")
+        tpath = ctx.path("replay-trace.ndjson")
+        args = ["local", "in=" + b, "out=" + tpath, "n=%d" % src.get("n", 4), "me=%d" % src.get("me", 1)]
+        if src.get("stakes"):
+            args.append("stakes=" + ",".join(map(str, src["stakes"])))
+        run_harness(ctx, hs, args)
+    elif src.get("kind") in ("attack script", "model schedule") and src.get("acts"):
+        hs = build_harness(ctx)
+        b = ctx.path("replay-sched.ndjson")
+        open(b, "w").write(json.dumps({"acts": src["acts"]}) + "\n")
+        tpath = ctx.path("replay-trace.ndjson")
+        run_harness(ctx, hs, ["attack", "in=" + b, "out=" + tpath, "n=4", "honest=1,2,3"])
+    elif obj.get("run_records"):
+        tpath = ctx.path("replay-trace.ndjson")
+        recs = obj["run_records"]
+        if recs and recs[-1].get("t") != "end":
+            recs = recs + [{"t": "end"}]
+        open(tpath, "w").write("\n".join(json.dumps(r) for r in recs) + "\n")
+        ctx.log("no schedule in the replay file: re-validating the recorded execution")
+    else:
+        print("this replay file carries neither a schedule nor a recorded run; see its 'record' field:")
+        print(json.dumps(obj.get("record", obj), indent=1)[:3000])
+        return 2
+    rep = validate_trace(ctx, tpath, "replay")
+    bad = sorted(set(v[0] for v in rep["viol"] if v[0].startswith(prop + ".")))
+    ctx.log("monitors failing on the replay: %s (all: %s); divergences: %d" % (bad, sorted(set(v[0] for v in rep["viol"])), rep["ndiv"]))
+    if bad:
+        print("VIOLATION property=%s replay=%s" % (prop, path))
+        return 1
+    return 0
